@@ -196,6 +196,37 @@ impl<K: Kk, V: Vv + ReserveHelper> WTab for WT<'_, K, V> {
         take: u32,
     ) -> PredOutcome<Vec<Pair>> {
         let mut count = 0u32;
+        if p.m % 2 == 0 {
+            // the application catches the panic around the single next()/next_back() call and
+            // drops the iterator in the ordinary way afterwards (not while unwinding)
+            let inner = mk_pred::<K, V>(p, &mut count);
+            let mut it = match self.0.extract_from_if::<K::SelfType<'_>, _>((bd::<K>(lo), bd::<K>(hi)), inner) {
+                Ok(it) => it,
+                Err(e) => return PredOutcome::Done(Err(e)),
+            };
+            let mut out = vec![];
+            let mut i = 0u32;
+            while (out.len() as u32) < take {
+                let back = (pattern >> (i % 32)) & 1 == 1;
+                i += 1;
+                let nx = catch_unwind(AssertUnwindSafe(|| match if back { it.next_back() } else { it.next() } {
+                    None => Ok(None),
+                    Some(Err(e)) => Err(e),
+                    Some(Ok((k, v))) => Ok(Some((K::out(k.value()), V::out(v.value())))),
+                }));
+                match nx {
+                    Err(_) => {
+                        drop(it);
+                        return PredOutcome::Panicked;
+                    }
+                    Ok(Err(e)) => return PredOutcome::Done(Err(e)),
+                    Ok(Ok(None)) => break,
+                    Ok(Ok(Some(pair))) => out.push(pair),
+                }
+            }
+            drop(it);
+            return PredOutcome::Done(Ok(out));
+        }
         let r = catch_unwind(AssertUnwindSafe(|| {
             let inner = mk_pred::<K, V>(p, &mut count);
             let it = self
